@@ -1,6 +1,7 @@
 package main
 
 import (
+	"sync/atomic"
 	"bytes"
 	"context"
 	"fmt"
@@ -167,6 +168,8 @@ func parseValues(out string) map[string]string {
 
 // renderObligation prepares the SMT queries of an obligation (one per alternative).
 // skipHyps: indices of hypotheses to leave out (assumptions of failed obligations).
+const maxFailures = 8
+
 var skipHyps map[int]bool
 var dumpCtr int
 
@@ -251,12 +254,21 @@ func solveAll(ex *Exec, obls []*Obligation, timeoutMs int, wantModel bool, worke
 	}
 	var wg sync.WaitGroup
 	ch := make(chan job)
+	var nFail int32
 	for i := 0; i < workers; i++ {
 		wg.Add(1)
 		go func() {
 			defer wg.Done()
 			for j := range ch {
+				if wantModel && atomic.LoadInt32(&nFail) >= maxFailures {
+					// the verdict is clear; the remaining obligations would only cost time
+					j.o.Status, j.o.Raw = "skipped", "not decided: the function already has many failing obligations"
+					continue
+				}
 				solveRendered(j.o, j.qs, timeoutMs)
+				if j.o.Status != "discharged" {
+					atomic.AddInt32(&nFail, 1)
+				}
 			}
 		}()
 	}
@@ -270,7 +282,7 @@ func solveAll(ex *Exec, obls []*Obligation, timeoutMs int, wantModel bool, worke
 	// verdict)
 	var retry []job
 	for _, j := range jobs {
-		if j.o.Status == "unknown" && wantModel {
+		if j.o.Status == "unknown" && wantModel && atomic.LoadInt32(&nFail) < maxFailures {
 			retry = append(retry, j)
 		}
 	}
